@@ -124,12 +124,7 @@ func runC12(p *core.Program, r *core.Report) {
 						guarded = true
 					}
 				}
-				okErr = guarded
-				for _, e := range phi.Edges {
-					if !core.IsNilConst(e) && !isFreshError(e) {
-						okErr = false
-					}
-				}
+				okErr = guarded && freshOrNil(phi, map[ssa.Value]bool{})
 			}
 			r.Check(okErr, "R12.2", name, "error return carries a freshly constructed non-nil error", pos, "error value is "+core.Describe(errV))
 		}
@@ -154,6 +149,10 @@ func runC12(p *core.Program, r *core.Report) {
 	checkConsecutiveSlices(p, r, fn, ti)
 	// "never fake text": token values are cut from the string itself (= C11 R11.5 re-run)
 	r.Borrow("R12.2b", func() { checkDecodedValuesArePieces(p, r, fn) })
+	// … and the decoded tokens are seen through Password.Tokens()/Token.Value()/Type(): they hand out the
+	// stored fields unchanged (= C05 R5.3 accessor rules; an accessor that filters or copies selectively
+	// changes the character counts the caller observes)
+	r.Borrow("R12.2b", func() { checkTokenAccessors(p, r) })
 
 	// R12.3: a full index is 1 + 2k bytes; a success return in the full-kind branch must know len(index) is odd
 	fullVal := int64(-1)
@@ -254,6 +253,92 @@ func passwordCarriesEntropy(v ssa.Value, entropy ssa.Value, depth int) (bool, st
 func isFreshError(v ssa.Value) bool {
 	c, ok := v.(*ssa.Call)
 	return ok && (core.CallName(c) == "fmt.Errorf" || core.CallName(c) == "errors.New")
+}
+
+// exitReturnsError: the edge from -> to ends in a return of a non-nil error. Besides the direct
+// form (the target block returns one) this follows the shape left by an expanded helper: the target
+// merges the helper's error result and tests it against nil; on this edge the merged value is an
+// error known to be non-nil (freshly made, or tested != nil where it comes from), so only the
+// error branch of that test can be taken.
+func exitReturnsError(from, to *ssa.BasicBlock, depth int) bool {
+	for _, in := range to.Instrs {
+		if ret, isRet := in.(*ssa.Return); isRet && len(ret.Results) == 2 && !core.IsNilConst(ret.Results[1]) {
+			return true
+		}
+	}
+	if depth > 6 || len(to.Instrs) == 0 {
+		return false
+	}
+	idx := -1
+	for i, pb := range to.Preds {
+		if pb == from {
+			idx = i
+		}
+	}
+	nonNil := func(v ssa.Value) bool {
+		if isFreshError(v) {
+			return true
+		}
+		for _, g := range core.Guards(from) {
+			if rel, ok := core.AsRel(g); ok && rel.Op == token.NEQ && rel.X == v && core.IsNilConst(rel.Y) {
+				return true
+			}
+		}
+		return false
+	}
+	switch last := to.Instrs[len(to.Instrs)-1].(type) {
+	case *ssa.Jump:
+		for _, in := range to.Instrs[:len(to.Instrs)-1] {
+			if _, isPhi := in.(*ssa.Phi); !isPhi {
+				return false
+			}
+		}
+		return exitReturnsError(to, to.Succs[0], depth+1)
+	case *ssa.If:
+		cmp, ok := last.Cond.(*ssa.BinOp)
+		if !ok || (cmp.Op != token.NEQ && cmp.Op != token.EQL) || !core.IsNilConst(cmp.Y) {
+			return false
+		}
+		for _, in := range to.Instrs[:len(to.Instrs)-1] {
+			if _, isPhi := in.(*ssa.Phi); !isPhi && in != ssa.Instruction(cmp) {
+				return false
+			}
+		}
+		v := cmp.X
+		if phi, isPhi := v.(*ssa.Phi); isPhi && phi.Block() == to && idx >= 0 {
+			v = phi.Edges[idx]
+		}
+		if !nonNil(v) {
+			return false
+		}
+		next := to.Succs[0]
+		if cmp.Op == token.EQL {
+			next = to.Succs[1]
+		}
+		return exitReturnsError(to, next, depth+1)
+	}
+	return false
+}
+
+// freshOrNil: nil, a freshly constructed error, or a merge of such values (an error handed up
+// through expanded helpers); under a guard v != nil such a value is a fresh error.
+func freshOrNil(v ssa.Value, seen map[ssa.Value]bool) bool {
+	if seen[v] {
+		return true
+	}
+	seen[v] = true
+	if core.IsNilConst(v) || isFreshError(v) {
+		return true
+	}
+	if phi, ok := v.(*ssa.Phi); ok {
+		for _, e := range phi.Edges {
+			if !freshOrNil(e, seen) {
+				return false
+			}
+		}
+		return true
+	}
+	return false
 }
 
 // advancedUnlessError: e is a merge (inside the loop) of `high` with the
@@ -373,12 +458,7 @@ func checkConsecutiveSlices(p *core.Program, r *core.Report, fn *ssa.Function, t
 				if l.Blocks[sb] {
 					continue
 				}
-				okExit := false
-				for _, in2 := range sb.Instrs {
-					if ret, isRet := in2.(*ssa.Return); isRet && len(ret.Results) == 2 && !core.IsNilConst(ret.Results[1]) {
-						okExit = true
-					}
-				}
+				okExit := exitReturnsError(b, sb, 0)
 				r.Check(okExit, "R12.2b", name, "the token loop ends only when the index is used up or with an error", p.InstrPos(b.Instrs[len(b.Instrs)-1]),
 					"an early exit leaves index entries unconsumed: the returned tokens do not have the character counts the index specifies")
 			}
